@@ -3,7 +3,8 @@
 usage: python -m harness.c12_child <in.pickle> <out.pickle>
 in : {"models": [pickle bytes of a pharmpy Model, ...], "recipes": [recipe, ...]}
 out: {"seed": PYTHONHASHSEED, "probe": hash("pharmpy"), "keys": [str(ModelHash(m)) | "raised:<Type>", ...],
-      "dicts": [sha of json.dumps(m.to_dict()), ...], "rebuilt": [(pickle bytes | None, key), ...]}
+      "dicts": [sha of json.dumps(m.to_dict()), ...], "rebuilt": [(pickle bytes | None, key), ...],
+      "pickle_trips": RoundTrip events (the parent's pickle, with its cached hashes, against the same content here)}
 The recipes are rebuilt HERE (read_model + transformations under this process's hash seed), hashed here, and sent back
 so that the parent can classify them with pharmpy's own ==.
 """
@@ -39,6 +40,7 @@ def main(inp: str, out: str) -> int:
             res["dicts"].append(hashlib.sha256(json.dumps(m.to_dict()).encode()).hexdigest()[:12])
         except Exception as e:
             res["dicts"].append("raised:" + type(e).__name__)
+    res["pickle_trips"] = K.pickle_trip_events(data["models"], data.get("hists", [""] * len(data["models"])))
     for rec in data["recipes"]:
         try:
             m = K.build_recipe(rec)
